@@ -62,6 +62,13 @@ enum {
   MYTH_VP_BULK_JOINED = 173   /* the thread of [a,c) has been joined and [c,b) is done; a = (void*)a, b = (void*)b, v = c */
 };
 
+/* CAS sleep stack (myth_sleep_stack_push/pop): a = stack; PUSH_READ/POP_READ b = top read
+   (0 = empty); PUSH_CAS b = pushed item, POP_CAS b = item read as top; v = CAS outcome */
+enum {
+  MYTH_VP_STK_PUSH_READ = 120, MYTH_VP_STK_PUSH_CAS = 121,
+  MYTH_VP_STK_POP_READ = 122, MYTH_VP_STK_POP_CAS = 123
+};
+
 /* context-switch callbacks (C03): point MYTH_VP_CTX_CALLBACK is the first statement of every
    MYTH_CTX_CALLBACK function (it runs on the target stack); a = arg1, b = arg2,
    v = which callback (MYTH_VP_CTX_CB_*) */
